@@ -1,5 +1,6 @@
 import Invoke.Lemmas.ConfigReach
 import Invoke.Lemmas.ConfigInto
+import Invoke.Lemmas.ConfigHeap
 /-! # C11 — clones are faithful and independent; supplied data is never mutated
 
 Property theorems only.  The model (`Model/Config.lean`) is pure: a configuration IS its ten data
@@ -116,6 +117,51 @@ theorem clone_into_original_wins (c : Cfg) (into : KVs) (hc : TypeOK c) (hci : C
   · intro p hm
     rw [node_into_viewT c into hc hk hci, hm]; simp
 
+/-! ## heap model: freshness of copies, caller-held data never written
+
+`Model/ConfigHeap.lean`: dict objects at `Nat` addresses, `copy_dict` / `merge_dicts` / `obliterate` /
+`excise` / the `_modify` and `_remove` walks / `Config.merge()` built from `alloc` and in-place `setD`.
+The owner tag (`src` = data handed to the configuration, `own` = allocated by it) is ghost state. -/
+
+/-- `copy_dict`: the heap only grows (no existing object is touched) and NO dict object reachable from
+    the copy is reachable from the source - whatever the fuel, for every closed heap. -/
+theorem copy_is_fresh (f : Nat) (h : Heap.Heap) (hc : Heap.Closed h) (src : Nat) (hs : src < h.length) :
+    (∃ ext, (Heap.hcopy f h src).1 = h ++ ext) ∧
+    ∀ x, Heap.Reach (Heap.hcopy f h src).1 (Heap.hcopy f h src).2 x → ¬ Heap.Reach (Heap.hcopy f h src).1 src x := by
+  obtain ⟨ha, hge, ext, he⟩ := Heap.hcopy_fresh f h src h.length (Nat.le_refl _) (Heap.above_self h)
+  refine ⟨⟨ext, he⟩, ?_⟩
+  intro x hr hr'
+  have h1 := Heap.reach_above ha hr hge
+  rw [he] at hr'
+  have h2 := Heap.reach_below hc hr' hs
+  omega
+
+/-- `Config.merge()`, `_modify` (value stored by reference into the modifications, deletion mark
+    excised, re-merge) and `_remove` write only to objects the configuration owns or has just
+    allocated: every caller-held dict object (`src`) has the same contents afterwards, at any nesting
+    depth, and the invariant "owned objects reference only owned objects" is kept (so this holds along
+    whole histories). -/
+theorem sources_unchanged (f : Nat) (h : Heap.Heap) (c : Heap.HCfg) (hi : Heap.HInv h) (hc : Heap.HCfg.Owned h c) :
+    (∀ a, a < h.length → Heap.ownerAt h a = .src → Heap.cellAt (c.merge f h).1 a = Heap.cellAt h a) ∧
+    (∀ p v, Heap.ValOwn h v → Heap.HInv (c.modify f h p v).1 ∧ Heap.HCfg.Owned (c.modify f h p v).1 c ∧
+      ∀ a, a < h.length → Heap.ownerAt h a = .src → Heap.cellAt (c.modify f h p v).1 a = Heap.cellAt h a) ∧
+    (∀ p, Heap.HInv (c.remove f h p).1 ∧ Heap.HCfg.Owned (c.remove f h p).1 c ∧
+      ∀ a, a < h.length → Heap.ownerAt h a = .src → Heap.cellAt (c.remove f h p).1 a = Heap.cellAt h a) := by
+  refine ⟨(Heap.merge_spec f h c hi).2.src, ?_, ?_⟩
+  · intro p v hv
+    obtain ⟨m1, m2⟩ := Heap.modify_spec f h c p v hi hc hv
+    exact ⟨m1, hc.mono m2, m2.src⟩
+  · intro p
+    obtain ⟨m1, m2⟩ := Heap.remove_spec f h c p hi hc
+    exact ⟨m1, hc.mono m2, m2.src⟩
+
+/-- `merge_dicts(base, updates)` with an owned `base` (the cache, a clone's slot): `updates` - typically
+    caller-held - and every other caller-held object keep their contents. -/
+theorem merge_dicts_leaves_sources (f : Nat) (h : Heap.Heap) (base upd : Nat) (hi : Heap.HInv h)
+    (hb : base < h.length) (ho : Heap.ownerAt h base = .own) :
+    ∀ a, a < h.length → Heap.ownerAt h a = .src → Heap.cellAt (Heap.hmerge f h base upd) a = Heap.cellAt h a :=
+  (Heap.hmerge_spec f h base upd hi hb ho).2.src
+
 /-! Non-vacuity: a type-consistent configuration with a modification and a deletion mark, and its clone. -/
 
 /-- `defaults = {a: {b: 1, c: 2}}`, after `c.a.z = 9` and `del c.a.b` -/
@@ -148,5 +194,36 @@ example : TypeOK c11Witness ∧ Compat c11Into c11Witness.defaults ∧ TypeOK (i
   rw [e]
   exact typeOK_simple (wfB_sound _ (by decide)) (wfB_sound _ (by decide)) (wfB_sound _ (by decide))
     (compatB_sound _ _ (by decide))
+
+/-- a heap satisfying the hypotheses of `sources_unchanged`: a caller-held `{a: {b: 1}}` (objects 0, 1) and
+    the configuration's own modifications / deletions objects (2, 3) -/
+def c11Heap : Heap.Heap :=
+  [⟨.src, [(['a'], .ref 1)]⟩, ⟨.src, [(['b'], .leaf (.i 1))]⟩, ⟨.own, []⟩, ⟨.own, []⟩]
+
+example : Heap.HInv c11Heap ∧ Heap.HCfg.Owned c11Heap ⟨[0], 2, 3, 0⟩ ∧ Heap.Closed c11Heap := by
+  refine ⟨?_, ⟨⟨by decide, rfl⟩, ⟨by decide, rfl⟩⟩, ?_⟩
+  · intro a c hc ho
+    match a, hc with
+    | 0, hc => simp [c11Heap] at hc; rw [← hc] at ho; cases ho
+    | 1, hc => simp [c11Heap] at hc; rw [← hc] at ho; cases ho
+    | 2, hc => simp [c11Heap] at hc; rw [← hc]; exact Heap.refsOwn_nil _
+    | 3, hc => simp [c11Heap] at hc; rw [← hc]; exact Heap.refsOwn_nil _
+    | n + 4, hc => simp [c11Heap] at hc
+  · intro a k b hm
+    match a with
+    | 0 => simp [c11Heap, Heap.cellAt] at hm; rw [hm.2]; decide
+    | 1 => simp [c11Heap, Heap.cellAt] at hm
+    | 2 => simp [c11Heap, Heap.cellAt] at hm
+    | 3 => simp [c11Heap, Heap.cellAt] at hm
+    | n + 4 => simp [c11Heap, Heap.cellAt] at hm
+
+/-- the heap model computes: `cfg.a.z = 9` on that heap leaves objects 0 and 1 alone, records the write in
+    fresh objects below the modifications object (2 -> 4), and builds a fresh cache (5 -> 6) reading
+    `{a: {b: 1, z: 9}}` -/
+example : (Heap.HCfg.modify 4 c11Heap ⟨[0], 2, 3, 0⟩ [['a'], ['z']] (.leaf (.i 9))) =
+    ([⟨.src, [(['a'], .ref 1)]⟩, ⟨.src, [(['b'], .leaf (.i 1))]⟩, ⟨.own, [(['a'], .ref 4)]⟩, ⟨.own, []⟩,
+      ⟨.own, [(['z'], .leaf (.i 9))]⟩, ⟨.own, [(['a'], .ref 6)]⟩,
+      ⟨.own, [(['b'], .leaf (.i 1)), (['z'], .leaf (.i 9))]⟩],
+     ⟨[0], 2, 3, 5⟩) := by decide
 
 end Inv
